@@ -196,7 +196,8 @@ def trace(lib, body, env=None, start=0, stop=(), model=None, skip_first_stmts=Fa
         tr.events.append(("call", c, av))
         return None
 
-    pe = PE(body, m, eq_ok=common.derived_eq_ok(lib), max_states=max_states)
+    pe = PE(body, m, eq_ok=common.derived_eq_ok(lib), max_states=max_states, crate=lib)
+    pe.model_in_closures = True      # a write made inside a closure (`opt.map_or(Ok(()), |k| write!(f, "{k}"))`) is a write
     res = pe.run(start=start, env=env, stop=stop, at_start_skip_stmts=skip_first_stmts)
     tr.res = res
     if res.forks:
@@ -1369,6 +1370,13 @@ def text_keywords(rep, lib):
     path = fpath(lib, (TPRN, "options"), (TOPT, "missing_value_keyword"))
     at = _single_text_written(lib, b, pr) if path else None
     good = at is not None and _is_self_field(at, path)
+    if not good and path:
+        # the same decision through a combinator and a closure (`kw.as_ref().map_or(Ok(()), |k| write!(f, "{k}"))`):
+        # evaluated with the keyword configured as a marker text, the one thing written must be that text
+        marker = "\x01missing\x02"
+        tr1 = trace(lib, b, env={1: ("rv", ("adt", 0, (_opt_env(lib, None, some(("s", marker))),)))})
+        w = tr1.writes()
+        good = tr1.deterministic and len(w) == 1 and w[0][2] == marker
     # the None edge writes nothing and returns Ok
     if good:
         tr = trace(lib, b, env={1: ("rv", ("adt", 0, (_opt_env(lib, None),)))})
@@ -1380,12 +1388,12 @@ def text_keywords(rep, lib):
               "(or as nothing when none is configured)", b.where())
 
 
-def _opt_env(lib, _):
-    """TextOutputOptions value with missing_value_keyword = None, everything else unknown."""
+def _opt_env(lib, _, kw=NONE):
+    """TextOutputOptions value with missing_value_keyword = None (or `kw`), everything else unknown."""
     a = lib.adts.get(TOPT)
     n = len(a["variants"][0]["fields"])
     vals = [None] * n
-    vals[field_index(lib, TOPT, "missing_value_keyword")] = NONE
+    vals[field_index(lib, TOPT, "missing_value_keyword")] = kw
     return ("adt", 0, tuple(vals))
 
 
